@@ -536,6 +536,48 @@ vk_proof_models! { unwind 6; fn c02_kernel_same_commodity() { let o = check_asse
 vk_proof_models! { unwind 6; fn c02_kernel_other_commodity() { let o = check_assert_kernel(AssertKind::OtherCommodity); vk_cover!(o.0, "assertion holds"); vk_cover!(o.1, "assertion fails"); } }
 vk_proof_models! { unwind 6; fn c02_kernel_bare_zero() { let o = check_assert_kernel(AssertKind::BareZero); vk_cover!(o.0, "assertion holds"); vk_cover!(o.1, "assertion fails"); } }
 
+
+// ---------------------------------------------------------------------------------------------
+// C03 deduction kernel. (Whole add_transaction harnesses were tried and dropped: two postings give
+// 1.7M symbolic-execution steps and exhaust 30 GB in the SAT back end — DESIGN section 7.)
+// add_transaction computes `deduced = balance.negate()` from the fold of the other postings' balancing
+// values and books it with `bal.add_amount(account, deduced)`.
+// ---------------------------------------------------------------------------------------------
+vk_proof_models! { unwind 6; fn c03_deduce_kernel() {
+    let v = dec16(0);
+    let w = dec16(2);
+    let pre = dec16(0);
+    let two = vk::bool();
+    vk::order_nondet(true);
+    let acc = account(0);
+    let other = account(1);
+    let (cx, cy) = (commodity(0), commodity(1));
+    vk::note(&|| format!("sum of the other postings' balancing values: {} X{}; omitted account holds {} X", v, if two { format!(" + {} Y", w) } else { String::new() }, pre));
+    // the fold add_transaction performs over the explicit postings
+    let mut balance = Amount::default();
+    balance += PostingAmount::Single(SingleAmount::from_value(v, cx));
+    if two {
+        balance += PostingAmount::Single(SingleAmount::from_value(w, cy));
+    }
+    balance += PostingAmount::Zero;
+    let mut bal = Balance::default();
+    bal.add_posting_amount(acc, PostingAmount::Single(SingleAmount::from_value(pre, cx)));
+    bal.add_posting_amount(other, PostingAmount::Single(SingleAmount::from_value(Decimal::from_parts(7, 0, 0, false, 0), cx)));
+    let deduced: Amount = balance.negate();
+    let (dx, _) = part(&deduced, cx);
+    let (dy, hy) = part(&deduced, cy);
+    assert!(dx == -v, "C03: inferred amount is not minus the sum of the other postings (first commodity)");
+    assert!(if two { dy == -w && hy } else { !hy }, "C03: inferred amount is not minus the sum of the other postings (second commodity)");
+    bal.add_amount(acc, deduced);
+    let am = bal.get(&acc).expect("account exists");
+    assert!(part(am, cx).0 == pre - v, "C03: the account of the omitted posting does not move by the inferred amount");
+    assert!(part(am, cy).0 == (if two { -w } else { Decimal::ZERO }), "C03: the account of the omitted posting does not receive the second commodity");
+    let o = bal.get(&other).expect("bystander exists");
+    assert!(n_entries(o) == 1 && part(o, cx).0 == Decimal::from_parts(7, 0, 0, false, 0), "C03: inference altered another account");
+    vk_cover!(two && !v.is_zero() && !w.is_zero(), "two-commodity inferred amount");
+    core::mem::forget(bal);
+} }
+
 #[cfg(all(test, not(kani)))]
 #[test]
 fn verif_replay_entry() {
@@ -556,6 +598,7 @@ fn verif_replay_entry() {
         ("c02_kernel_same_commodity", c02_kernel_same_commodity as fn()),
         ("c02_kernel_other_commodity", c02_kernel_other_commodity as fn()),
         ("c02_kernel_bare_zero", c02_kernel_bare_zero as fn()),
+        ("c03_deduce_kernel", c03_deduce_kernel as fn()),
         ("c03_assign_commodity", c03_assign_commodity as fn()),
         ("c03_assign_bare_zero", c03_assign_bare_zero as fn()),
     ]);
